@@ -135,5 +135,31 @@ PROPS['C18'] = {
               'the cumulative equality over a whole history is checked by the oracle against the transport write log',
 }
 
+PROPS['C09'] = {
+    'module': 'Yabgp.Props.C09',
+    'theorems': ['Yabgp.C09_decodes_reference', 'Yabgp.C09_rejects_attribute', 'Yabgp.C09_rejects_prefix',
+                 'Yabgp.C09_prefix_length_rejected', 'Yabgp.C09_origin_rejected', 'Yabgp.C09_segment_type_rejected',
+                 'Yabgp.C09_as4_segment_type_rejected', 'Yabgp.C09_med_length_rejected',
+                 'Yabgp.C09_localpref_length_rejected', 'Yabgp.C09_originator_length_rejected',
+                 'Yabgp.C09_nexthop_length_rejected', 'Yabgp.C09_atomic_length_rejected',
+                 'Yabgp.C09_aggregator_length_rejected', 'Yabgp.refValidB_sound', 'Yabgp.refValue_parse',
+                 'Yabgp.splitAttr_ref', 'Yabgp.parseOnePrefix_ref'],
+    'genagree': ['Yabgp.GenAgree.attr_codes', 'Yabgp.GenAgree.attr_ids', 'Yabgp.GenAgree.update_errors'],
+    'suites': ['refupdate', 'update'],
+    'cannot': 'IPv4 unicast and the standard attributes + AS4_PATH/AS4_AGGREGATOR (the value space of C06); the C07 families '
+              '(MP_REACH/MP_UNREACH, extended communities, tunnel attributes) are not in the reference encoder yet; the '
+              'reference encoder is my reading of RFC 4271/1997/4456/6793/7911/8092; the handler-level observation '
+              '(update_received vs on_update_error) is covered by C10\'s session suite',
+    'level_text': 'Lean 4 theorems over an independent reference encoder (Spec/RfcEncode.lean, written from the RFCs, sharing only '
+                  'byte helpers with the decoder model): for EVERY well-formed content - any attribute order, extended length '
+                  'on/off and Partial bit on/off per attribute, any number of AS_PATH segments, AS4_PATH/AS4_AGGREGATOR, both AS '
+                  'widths, add-path ids, arbitrary trailing bits in every prefix - the decoder model returns exactly the values '
+                  'and no error; for each malformation the decoder checks, placed after any well-formed content, it returns the '
+                  'RFC error sub-code and no value for the offending field. The decoder model is tied to /repo by differential '
+                  'correspondence on the reference encodings and on the update suite; the implementation itself is checked '
+                  'against the theorem\'s expected value on every generated instance (instances are admitted by refValidB, proved '
+                  'sound for the theorem\'s hypotheses).',
+}
+
 # properties not claimed yet, with the reason that goes into MANIFEST.not_applicable
 NOT_YET = {}
